@@ -1,0 +1,27 @@
+//go:build verif
+
+// Contracts for package main (displayrtcm3), checked by /verif/govc (see /verif/DESIGN.md).
+// This file contains only comments; it is compiled only with -tags verif and
+// has no effect on the package.
+
+package main
+
+// Display stage: one Write per message received, until the channel is closed.
+//@ func DisplayMessages
+//@ requires[C07] messageChan != nil
+//@ let rc0 = recvd(messageChan)
+//@ let c0 = gc("wrcalls", writer)
+//@ modifies recv(messageChan), gc("wr", writer), gb("wr", writer), gc("wrcalls", writer), gb("wroff", writer)
+//@ ensures[C11] result == nil && recvd(messageChan) == feedlen(messageChan) && gc("wrcalls", writer) - c0 == recvd(messageChan) - rc0
+//@ loop 1
+//@ invariant[C11] messageChan != nil && recvd(messageChan) >= rc0 && recvd(messageChan) <= feedlen(messageChan) && gc("wrcalls", writer) - c0 == recvd(messageChan) - rc0
+//@ decreases[C07,C11] feedlen(messageChan) - recvd(messageChan)
+
+// Wiring: the heading is written, the display goroutine consumes the channel that the
+// fan-out stage feeds, the channel is closed exactly once after the input is exhausted
+// and the function waits for the display goroutine (join obligation).
+//@ func HandleMessages
+//@ requires[C07] config != nil
+//@ noterm runs until the input is exhausted
+//@ modifies gc("wr", writer), gb("wr", writer), gc("wrcalls", writer), gb("wroff", writer), config.SystemLog
+//@ ensures[C11] closed(messageChan)
